@@ -234,7 +234,10 @@ def excuses_scoped(norm, src):
                 add('[cdata-edge-whitespace]', stack[-1] if stack else ANY)
             if len(e) > 2 and e[2]:
                 # CDATA in an element whose content is typed; CDATA next to ordinary text in one element
-                if stack and stack[-1] in norm.typed:
+                # (the parser keeps the last TOKEN tag as "current tag": below a typed element, literal
+                # elements inherit its typed handling)
+                owner = next((n for n in reversed(stack) if n in names), None)
+                if stack and (stack[-1] in norm.typed or (stack[-1] not in names and owner in norm.typed)):
                     add('[cdata-in-typed-element]', stack[-1])
                 elif len(e) > 3 and e[3]:
                     add('[cdata-adjacent-to-text]', stack[-1] if stack else ANY)
